@@ -188,4 +188,19 @@ g(EN := FALSE, x := INT#3, ENO => gok);\nh(EN := TRUE, x := INT#3);\nhy := h.y;\
             (1, "Main.u2o", "INT#Int(21)"),
         ],
     },
+    Cell {
+        name: "call-result-has-declared-type",
+        text: "FUNCTION Half : REAL\nVAR_INPUT n : INT; END_VAR\nHalf := n;\nEND_FUNCTION\n\
+FUNCTION Wide : LINT\nVAR_INPUT d : DINT; END_VAR\nWide := d;\nEND_FUNCTION\n\
+FUNCTION_BLOCK M\nMETHOD PUBLIC Fetch : LREAL\nVAR_INPUT k : DINT; END_VAR\nFetch := k;\nEND_METHOD\nEND_FUNCTION_BLOCK\n\
+PROGRAM Main\nVAR direct : REAL; via : REAL; t : REAL; big : LINT; m : M; q : LREAL; seven : INT := INT#7; two : INT := INT#2; END_VAR\n\
+direct := Half(n := seven) / two;\nt := Half(n := seven);\nvia := t / two;\nbig := Wide(d := DINT#2000000000) + Wide(d := DINT#1000000000);\nq := m.Fetch(k := DINT#7) / DINT#2;\nEND_PROGRAM\n",
+        cycles: 1,
+        expect: &[
+            (0, "Main.direct", "REAL#40600000"), // 3.5: the call's value is a REAL, so the division is a REAL division
+            (0, "Main.via", "REAL#40600000"),
+            (0, "Main.big", "LINT#LInt(3000000000)"),
+            (0, "Main.q", "LREAL#400c000000000000"),
+        ],
+    },
 ];
